@@ -1,6 +1,7 @@
 package main
 
 import (
+	"fmt"
 	"go/token"
 	"go/types"
 
@@ -23,6 +24,11 @@ type View struct {
 
 	facts     map[*ssa.BasicBlock]factSet // facts at block entry
 	factsDone bool
+
+	// optional: virtual stores through helpers in lastStoreAll (set by the caller of that query)
+	virtMatch func(key string) bool
+	virtGood  func(val ssa.Value) bool
+	synth     map[string]*ssa.Call // interned synthetic predicate calls (guard helpers)
 }
 
 var stdNoReturn = map[string]bool{
@@ -289,9 +295,154 @@ func (v *View) edgeFacts(out factSet, b *ssa.BasicBlock, i int) factSet {
 		}
 		n := out.clone()
 		addCondFacts(n, iff.Cond, i == 0)
+		v.addImpliedFacts(n, out)
 		return n
 	}
 	return out
+}
+
+// Guard helpers. `if err := h(x); err != nil { return err }` where h is a small first-party
+// function establishes, on the nil edge, whatever is known at every nil-return of h - e.g.
+// that a predicate over h's parameters is true. The facts are instantiated over the caller's
+// arguments as synthetic call values (interned per call site), so that rules looking for a
+// dominating predicate call see through one level of "extract function".
+type guardFact struct {
+	callee ssa.Value
+	params []int
+	k      factKind
+}
+
+func (p *Program) guardSummary(h *ssa.Function, k factKind) []guardFact {
+	if p.guardMemo == nil {
+		p.guardMemo = map[*ssa.Function]map[factKind][]guardFact{}
+		p.guardBusy = map[*ssa.Function]bool{}
+	}
+	if m, ok := p.guardMemo[h]; ok {
+		return m[k]
+	}
+	if p.guardBusy[h] || h.Blocks == nil || len(h.Blocks) > 12 {
+		return nil
+	}
+	p.guardBusy[h] = true
+	defer delete(p.guardBusy, h)
+	view := p.View(h)
+	res := map[factKind][]guardFact{}
+	for _, kind := range []factKind{factNil, factNonNil, factTrue, factFalse} {
+		var common map[string]guardFact
+		n := 0
+		for _, b := range view.Blocks() {
+			ins := view.Instrs(b)
+			ret, ok := ins[len(ins)-1].(*ssa.Return)
+			if !ok || len(ret.Results) != 1 {
+				continue
+			}
+			rv := ret.Results[0]
+			may := true
+			switch kind {
+			case factNil:
+				if isErrorValue(rv, view, b, map[ssa.Value]bool{}) {
+					may = false
+				}
+				if c, ok := rv.(*ssa.Const); ok && !c.IsNil() {
+					may = false
+				}
+			case factNonNil:
+				if c, ok := rv.(*ssa.Const); ok && c.IsNil() {
+					may = false
+				}
+				if view.holdsAt(b, rv, factNil) {
+					may = false
+				}
+			case factTrue, factFalse:
+				c, ok := rv.(*ssa.Const)
+				if ok && c.Value != nil && (c.Value.String() == "true") != (kind == factTrue) {
+					may = false
+				}
+			}
+			if !may {
+				continue
+			}
+			n++
+			cur := map[string]guardFact{}
+			for f := range view.FactsAt(b) {
+				call, ok := f.v.(*ssa.Call)
+				if !ok || call.Common().IsInvoke() || call.Common().StaticCallee() == nil {
+					continue
+				}
+				var idx []int
+				okArgs := true
+				for _, a := range call.Common().Args {
+					found := -1
+					for i, q := range h.Params {
+						if a == ssa.Value(q) {
+							found = i
+						}
+					}
+					if found < 0 {
+						okArgs = false
+						break
+					}
+					idx = append(idx, found)
+				}
+				if !okArgs || len(idx) == 0 {
+					continue
+				}
+				key := fmt.Sprintf("%s|%v|%d", call.Common().StaticCallee().String(), idx, f.k)
+				cur[key] = guardFact{call.Common().Value, idx, f.k}
+			}
+			if common == nil {
+				common = cur
+			} else {
+				for key := range common {
+					if _, ok := cur[key]; !ok {
+						delete(common, key)
+					}
+				}
+			}
+		}
+		if n > 0 {
+			for _, gf := range common {
+				res[kind] = append(res[kind], gf)
+			}
+		}
+	}
+	p.guardMemo[h] = res
+	return res[k]
+}
+
+func (v *View) addImpliedFacts(n, before factSet) {
+	for f := range n {
+		if before[f] {
+			continue
+		}
+		call, ok := f.v.(*ssa.Call)
+		if !ok {
+			continue
+		}
+		h := call.Common().StaticCallee()
+		if h == nil || !v.P.isFirstParty(h) || h == v.Fn || call.Common().IsInvoke() {
+			continue
+		}
+		args := call.Common().Args
+		for gi, gf := range v.P.guardSummary(h, f.k) {
+			if v.synth == nil {
+				v.synth = map[string]*ssa.Call{}
+			}
+			key := fmt.Sprintf("%p|%d|%d", call, f.k, gi)
+			sc, ok := v.synth[key]
+			if !ok {
+				sc = &ssa.Call{}
+				sc.Call.Value = gf.callee
+				for _, pi := range gf.params {
+					if pi < len(args) {
+						sc.Call.Args = append(sc.Call.Args, args[pi])
+					}
+				}
+				v.synth[key] = sc
+			}
+			n[fact{sc, gf.k}] = true
+		}
+	}
 }
 
 func (v *View) computeFacts() {
